@@ -27,7 +27,8 @@ Shape(k) == CASE k = 1 -> <<Sp(0, 720)>>            \* morning
               [] k = 3 -> <<Sp(0, 1440)>>           \* whole day
               [] k = 4 -> <<Sp(1080, 360)>>         \* evening, wraps to 06:00
               [] k = 5 -> <<Sp(360, 1080)>>         \* middle of the day
-              [] OTHER -> <<Sp(1200, 1560)>>        \* 20:00-26:00
+              [] k = 6 -> <<Sp(1200, 1560)>>        \* 20:00-26:00
+              [] OTHER -> <<Sp(600, 600)>>          \* 10:00-10:00: 24 hours, wraps (end == start)
 
 Rule(op, kind, days, shape, name) ==
   [op |-> op, kind |-> kind, comments |-> <<name>>, year |-> <<>>, monthday |-> <<>>, week |-> <<>>,
